@@ -65,10 +65,13 @@ def main():
     log["patch_applies"] = rc == 0
     if rc != 0:
         log["apply_output"] = o[-500:]
+    demo_path = os.path.join(WT, "tests", demo_name + ".rs")
+    os.remove(demo_path)
     rc1, o1 = sh("cargo test --workspace --no-fail-fast --offline 2>&1 | grep -E '^test result|FAILED|^error' | sort | uniq -c", cwd=WT)
     passed = sum(int(m) for m in re.findall(r"(\d+) passed", o1))
     failed = sum(int(m) for m in re.findall(r"(\d+) failed", o1)) + o1.count("error")
     log["suite_with_patch"] = {"passed": passed, "failed": failed, "output": o1[-600:]}
+    shutil.copy(demo, demo_path)
     rc2, o2 = sh(test_cmd, cwd=WT)
     fails_with = "FAILED" in o2 or "panicked" in o2 or "test result: FAILED" in o2
     log["demo_with_patch"] = {"fails": fails_with, "tail": o2[-900:]}
